@@ -662,7 +662,7 @@ Ltac zbool_hyp H :=
   cbn [negb andb orb] in H; try discriminate H.
 
 (* H : <condition of an upward loop at counter a, bound b> = true  becomes  H : (a < b)%nat, for the spellings `a < b`
-   (`b > a`) and `a != b` (the latter needs the invariant a <= b in the context); cond_false_in: H : (b <= a)%nat *)
+   (`b > a`) and `a != b` (the latter needs the invariant a <= b in the context); cond_false_in: H : (b <= a)%nat, resp. H : a = b *)
 Ltac cond_true_in H :=
   match type of H with
   | (Z.of_nat ?a <? Z.of_nat ?b) = true => rewrite ltb_of_nat in H; apply Nat.ltb_lt in H
@@ -674,6 +674,6 @@ Ltac cond_true_in H :=
 Ltac cond_false_in H :=
   match type of H with
   | (Z.of_nat ?a <? Z.of_nat ?b) = false => rewrite ltb_of_nat in H; apply Nat.ltb_ge in H
-  | negb (Z.of_nat ?a =? Z.of_nat ?b) = false =>
-      let H' := fresh in assert (H' : (b <= a)%nat) by (zbool_hyp H; lia); clear H; rename H' into H
+  | negb (Z.of_nat ?a =? Z.of_nat ?b) = false =>       (* `a != b` is false: the counter has reached the bound *)
+      let H' := fresh in assert (H' : a = b) by (zbool_hyp H; lia); clear H; rename H' into H
   end.
